@@ -59,8 +59,42 @@ def user_fn3(a, b):
     return s_, s_, t_, s_ - t_
 
 
+@eager_propagate
+def user_fn4(a, b):
+    """Returns a user struct array assembled with its fields given in another order than the dtype declares them
+    (and a plain array after it)."""
+    s_ = ndx.Array._from_fields(Pair(), hi=nda.make_nullable(b * 2.0, b > 100.0), lo=a + 1)
+    return s_, a - 1
+
+
 def handle(case):
     k = case["kind"]
+    if k == "propagate4":
+        def go():
+            vals = {n: nd.dec_array(t) for n, t in case["values"].items()}
+            res = {}
+            import ndonnx._build as nb
+            for lazy_set in case["lazy_sets"]:
+                ins = {n: ndx.array(shape=tuple(case["values"][n]["shape"]), dtype=nd.dt(case["values"][n]["dtype"])) for n in lazy_set}
+                arrs = {n: (ins[n] if n in lazy_set else ndx.asarray(vals[n].copy())) for n in ("a", "b")}
+                s_, p_ = user_fn4(arrs["a"], arrs["b"])
+                r = {"values": [None if s_.to_numpy() is None else _enc_pair(s_.to_numpy()), None if p_.to_numpy() is None else nd.enc_array(p_.to_numpy())]}
+                model = ndx.build(ins, {"s": s_, "p": p_})
+                feeds = {}
+                for n in lazy_set:
+                    feeds.update(nd.feeds_for(n, case["values"][n]))
+                sess = nd.ort().InferenceSession(model.SerializeToString())
+                raw = dict(zip([o.name for o in sess.get_outputs()], sess.run(None, feeds)))
+                got = nb._assemble_outputs(raw, {"s": s_.dtype, "p": p_.dtype})
+                r["model"] = [_enc_pair(got["s"]), nd.enc_array(got["p"])]
+                res[",".join(sorted(lazy_set)) or "-"] = r
+            a, b = vals["a"], vals["b"]
+            orc = np.empty(a.shape, dtype=object)
+            for i in np.ndindex(*a.shape):
+                orc[i] = (int(a[i]) + 1, None if b[i] > 100.0 else float(b[i]) * 2.0)
+            res["oracle"] = [_enc_pair(orc), nd.enc_array(a - 1)]
+            return {"ok": res}
+        return _guard(go)
     if k == "propagate3":
         def go():
             vals = {n: nd.dec_array(t) for n, t in case["values"].items()}
